@@ -703,14 +703,19 @@ impl<S: WebSocket, T: TimestampProvider> Task<S, T> {
         // At the client side, we use the associated oneshot channel to send the new stream
         trace!("sending stream to user");
         let (stream, stream_data) = self.new_stream_shared(flow_id, peer_rwnd, Bytes::new(), 0);
-        self.flows
+        let requester = self
+            .flows
             .write()
             .get_mut(&flow_id)
             .ok_or(Error::ConnAckGone)?
             .establish(stream_data)
-            .ok_or(Error::ConnAckGone)?
-            .send(Some(stream))
-            .or(Err(Error::SendStreamToClient))?;
+            .ok_or(Error::ConnAckGone)?;
+        // If the requester has given up in the meantime (its future was dropped, e.g. by a
+        // timeout), the stream is dropped right here: its drop notification closes the flow
+        // again and tells the peer with a `Reset`. That is no reason to end the connection.
+        if requester.send(Some(stream)).is_err() {
+            debug!("requester of flow {flow_id:08x} is gone, dropping the new stream");
+        }
         Ok(())
     }
 
